@@ -274,6 +274,13 @@ class UintField(CborField):
         except TypeError:
             return None
 
+    def getfield(self, pkt, s):
+        # int() also takes a bool, a float or text: decoded from any of
+        # those the field would encode again as an item never received
+        if s and s[0] is not None and (isinstance(s[0], bool) or not isinstance(s[0], int)):
+            raise DecodeError('Item for {} is not an integer: {!r}'.format(self.name, s[0]))
+        return CborField.getfield(self, pkt, s)
+
     def i2repr(self, pkt, x):
         return encode_diagnostic(x)
 
@@ -375,6 +382,13 @@ class BstrField(CborField):
             return bytes(x)
         except TypeError:
             return None
+
+    def getfield(self, pkt, s):
+        # bytes() also takes an integer (as a size to allocate) and an
+        # array of integers
+        if s and s[0] is not None and not isinstance(s[0], bytes):
+            raise DecodeError('Item for {} is not a byte string: {!r}'.format(self.name, s[0]))
+        return CborField.getfield(self, pkt, s)
 
     def i2repr(self, pkt, x):
         return encode_diagnostic(x)
